@@ -120,8 +120,28 @@ func runFsutil(cfg Cfg) {
 	// result; emitted for the hand-picked, pair and random cases (the exhaustive url domain compares the
 	// byte-level Clean itself on every string, op cleanb).
 	resolveB := false
+	// held: results returned earlier are kept (the string itself, plus a private copy of its bytes)
+	// and re-read after later calls - a returned path must never change afterwards
+	type heldRes struct {
+		base, url, res string
+		copyOf         []byte
+	}
+	var held []heldRes
+	checkHeld := func() {
+		for _, h := range held {
+			if h.res != string(h.copyOf) {
+				s.Violate("result-changed-later", fmt.Sprintf("ResolveUrlPath(%q, %q) returned %q, after later calls the same string reads %q", h.base, h.url, h.copyOf, h.res), fsutilCase{h.base, h.url, string(h.copyOf)})
+			}
+		}
+		held = held[:0]
+	}
 	resolve := func(base, url string, record bool) {
 		res := fsutil.ResolveUrlPath(base, url)
+		if len(held) < 16 {
+			held = append(held, heldRes{base, url, res, []byte(res)})
+		} else {
+			checkHeld()
+		}
 		s.Line("resolve "+hxs(base)+" "+hxs(url), hxs(res))
 		if resolveB {
 			s.Line("resolveb "+hxs(base)+" "+hxs(url), hxs(res))
